@@ -645,3 +645,245 @@ Proof.
   apply slab_cells_len in Hc; [| unfold ones; rewrite map_length; auto | lia].
   rewrite varoffset_rowmajor_lemma by lia. reflexivity.
 Qed.
+
+(* ---- requests reaching outside the extent are rejected ----------------------------------------- *)
+Lemma coordck_fixed : forall m w p, is_recvar m = false ->
+  coordck m w p = if any2 coordck_bad p (m_shape m) then None else Some (m, []).
+Proof. intros. unfold coordck. rewrite H. destruct (any2 coordck_bad p (m_shape m)); reflexivity. Qed.
+
+Lemma xdr_vdata_shape : forall m w wh c v m2 tr cs,
+  xdr_vdata m w wh c v = Some (m2, tr, cs) -> m_shape m2 = m_shape m.
+Proof.
+  intros m w wh c v m2 tr cs H. unfold xdr_vdata in H. cbv zeta in H.
+  destruct ((elem_length m <=? 0) && negb w); [inversion H; reflexivity |].
+  destruct w.
+  - match type of H with (match ?x with _ => _ end) = _ => destruct x; [| discriminate] end.
+    match type of H with (match ?x with _ => _ end) = _ => destruct x; [| discriminate] end.
+    inversion H. reflexivity.
+  - match type of H with (if ?x then _ else _) = _ => destruct x; [discriminate |] end.
+    inversion H. reflexivity.
+Qed.
+
+Lemma is_recvar_shape : forall m m', m_shape m' = m_shape m -> is_recvar m' = is_recvar m.
+Proof. intros. unfold is_recvar. rewrite H. reflexivity. Qed.
+
+(** the ripple counter fails as soon as one of its positions is outside the shape *)
+Lemma vario_loop_false : forall w n positions a,
+  is_recvar (acc_m a) = false ->
+  (exists p, In p positions /\ any2 coordck_bad p (m_shape (acc_m a)) = true) ->
+  fst (vario_loop w n positions a) = false.
+Proof.
+  induction positions as [| p0 rest IH]; intros a Hr [p [Hin Hbad]]. contradiction.
+  cbn [vario_loop]. rewrite coordck_fixed by auto.
+  destruct (any2 coordck_bad p0 (m_shape (acc_m a))) eqn:B0; [reflexivity |].
+  destruct Hin as [-> | Hin]; [congruence |].
+  destruct (xdr_vdata (acc_m a) w (varoffset (acc_m a) p0) n (firstn (Z.to_nat n) (acc_vals a)))
+    as [[[m2 tr2] cs] |] eqn:X; [| reflexivity].
+  pose proof (xdr_vdata_shape _ _ _ _ _ _ _ _ X) as Sh.
+  apply IH; cbn [acc_m].
+  - rewrite (is_recvar_shape _ _ Sh). auto.
+  - exists p. rewrite Sh. auto.
+Qed.
+
+Lemma all4_app : forall f a1 b1 c1 d1 a2 b2 c2 d2,
+  length b1 = length a1 -> length c1 = length a1 -> length d1 = length a1 ->
+  all4 f (a1 ++ a2) (b1 ++ b2) (c1 ++ c2) (d1 ++ d2) = all4 f a1 b1 c1 d1 && all4 f a2 b2 c2 d2.
+Proof.
+  induction a1; destruct b1, c1, d1; simpl; intros; try discriminate; auto.
+  rewrite IHa1 by lia. rewrite andb_assoc. reflexivity.
+Qed.
+
+Lemma any2_app_l : forall f p d q e, length p = length d -> any2 f p d = true -> any2 f (p ++ q) (d ++ e) = true.
+Proof.
+  induction p; destruct d; simpl; intros; try discriminate.
+  destruct (truth (f a z)); simpl in *; auto.
+Qed.
+
+Lemma in_zrange1 : forall n s x, s <= x < s + Z.of_nat n -> In x (zrange s 1 n).
+Proof.
+  induction n; intros; simpl in *. lia.
+  destruct (Z.eq_dec s x); [left; auto | right; apply IHn; lia].
+Qed.
+
+Lemma odometer_start : forall s e, length e = length s -> Forall (fun c => 1 <= c) e -> In s (odometer s e).
+Proof.
+  induction s; destruct e; simpl; intros; try discriminate; auto.
+  inversion H0; subst. apply in_flat_map. exists a. split.
+  - apply in_zrange1. lia.
+  - apply in_map. apply IHs; auto.
+Qed.
+
+Lemma odometer_len : forall s e p, length e = length s -> In p (odometer s e) -> length p = length s.
+Proof.
+  intros. rewrite odometer_slab in H0.
+  apply (slab_cells_len s (ones s) e p); [unfold ones; apply map_length | auto | auto].
+Qed.
+
+(** if a unit-stride request with positive edges leaves the shape somewhere, the odometer contains a position
+    that lies outside the shape *)
+Lemma oob_bad_position : forall s e d, length e = length s -> length d = length s ->
+  Forall (fun c => 1 <= c) e -> all4 dim_in s (ones s) e d = false ->
+  exists p, In p (odometer s e) /\ any2 coordck_bad p d = true.
+Proof.
+  induction s as [| s0 s IH]; destruct e as [| e0 e], d as [| d0 d]; intros He Hd Hf H; try discriminate.
+  inversion Hf as [| ? ? He0 Hf']; subst.
+  cbn [ones map all4] in H. unfold ones in IH.
+  cbn [odometer].
+  destruct (dim_in s0 1 e0 d0) eqn:D.
+  - simpl in H. destruct (IH e d) as [p [Pin Pbad]]; auto.
+    exists (s0 :: p). split.
+    + apply in_flat_map. exists s0. split. apply in_zrange1; lia. apply in_map; auto.
+    + cbn [any2]. rewrite Pbad. apply orb_true_r.
+  - unfold dim_in, reach in D.
+    assert (St : In s (odometer s e)) by (apply odometer_start; auto).
+    destruct (Z_lt_dec s0 0) as [N | N]; [| destruct (Z_le_dec d0 s0) as [G | G]].
+    + exists (s0 :: s). split.
+      * apply in_flat_map. exists s0. split. apply in_zrange1; lia. apply in_map; auto.
+      * cbn [any2]. rewrite coordck_bad_spec. replace (0 <=? s0) with false by (symmetry; apply Z.leb_gt; lia). reflexivity.
+    + exists (s0 :: s). split.
+      * apply in_flat_map. exists s0. split. apply in_zrange1; lia. apply in_map; auto.
+      * cbn [any2]. rewrite coordck_bad_spec. replace (s0 <? d0) with false by (symmetry; apply Z.ltb_ge; lia).
+        rewrite andb_false_r. reflexivity.
+    + replace (0 <=? s0) with true in D by (symmetry; apply Z.leb_le; lia). simpl in D. apply Z.ltb_ge in D.
+      exists (d0 :: s). split.
+      * apply in_flat_map. exists d0. split. apply in_zrange1; lia. apply in_map; auto.
+      * cbn [any2]. rewrite coordck_bad_spec. replace (d0 <? d0) with false by (symmetry; apply Z.ltb_ge; lia).
+        rewrite andb_false_r. reflexivity.
+Qed.
+
+Lemma any2_false_nonneg : forall p d, length p = length d -> any2 coordck_bad p d = false -> Forall (fun o => 0 <= o) p.
+Proof.
+  induction p; destruct d; simpl; intros; try discriminate; auto.
+  apply orb_false_elim in H0. destruct H0 as [A B]. rewrite coordck_bad_spec in A.
+  apply negb_false_iff in A. apply andb_prop in A. destruct A as [A _]. apply Z.leb_le in A.
+  constructor; auto. apply IHp with d; auto.
+Qed.
+
+Lemma whole_in_range : forall post, all4 dim_in (zeros post) (ones post) post post = true.
+Proof.
+  induction post; auto. unfold zeros, ones in *. cbn [map all4]. rewrite IHpost.
+  unfold dim_in, reach. rewrite andb_true_r. apply andb_true_intro. split.
+  apply Z.leb_le; lia. apply Z.ltb_lt; lia.
+Qed.
+
+Lemma prod_pos : forall l, Forall (fun c => 1 <= c) l -> 1 <= prod l.
+Proof. induction 1; unfold prod in *; simpl. lia. fold (prod l) in *. nia. Qed.
+
+(** NCvario on a fixed-size variable: a unit-stride request with positive edges that reaches outside the shape
+    in any dimension returns -1 -- either NCcoordck rejects the start, or NCvcmaxcontig rejects an edge, or the
+    ripple counter reaches a position NCcoordck rejects. *)
+Lemma vario_oob_fails : forall w a start edges,
+  is_recvar (acc_m a) = false -> (0 < length (m_shape (acc_m a)))%nat ->
+  length start = length (m_shape (acc_m a)) -> length edges = length (m_shape (acc_m a)) ->
+  Forall (fun c => 1 <= c) edges ->
+  all4 dim_in start (ones start) edges (m_shape (acc_m a)) = false ->
+  fst (vario w start edges a) = false.
+Proof.
+  intros w a start edges Hr Hn Hs He Hpos Hout.
+  unfold vario. destruct (m_shape (acc_m a)) as [| d0 dr] eqn:Sh. simpl in Hn; lia.
+  rewrite <- Sh in *. rewrite coordck_fixed by auto.
+  destruct (any2 coordck_bad start (m_shape (acc_m a))) eqn:B; [reflexivity |].
+  cbn [acc_m]. rewrite Hr. cbn [andb].
+  destruct (vario_plan (acc_m a) start edges) as [[ps n] |] eqn:P; [| reflexivity].
+  pose proof (any2_false_nonneg _ _ Hs B) as Hnn.
+  unfold vario_plan in P. destruct (vcmaxcontig (acc_m a) start edges) as [k|] eqn:V; [| discriminate].
+  assert (Hb : ((if is_recvar (acc_m a) then 1 else 0) < length (m_shape (acc_m a)))%nat) by (rewrite Hr; lia).
+  destruct (vcmaxcontig_sound _ _ _ _ Hs He Hb Hnn V)
+    as [pre [dk [post [spre [sk [epre [ek [S1 [S2 [S3 [L1 [L2 [L3 [Hek Hek2]]]]]]]]]]]]]].
+  assert (F1 : firstn k start = spre) by (rewrite S2; apply firstn_exact; auto).
+  assert (F2 : skipn k start = sk :: zeros post) by (rewrite S2; apply skipn_exact; auto).
+  assert (F3 : firstn k edges = epre) by (rewrite S3; apply firstn_exact; auto).
+  assert (F4 : skipn k edges = ek :: post) by (rewrite S3; apply skipn_exact; auto).
+  assert (Pps : ps = map (fun p => p ++ sk :: zeros post) (odometer spre epre) /\ n = prod (ek :: post)).
+  { inversion P. rewrite F4. split; auto. destruct k; rewrite ?F1, ?F2, ?F3; auto.
+    simpl in *. destruct spre, epre; try discriminate. simpl. rewrite F2. reflexivity. }
+  destruct Pps as [-> ->]. clear P.
+  assert (Hep : Forall (fun c => 1 <= c) (ek :: post)).
+  { rewrite S3 in Hpos. apply Forall_app in Hpos. tauto. }
+  pose proof (prod_pos _ Hep) as Hp1.
+  replace (prod (ek :: post) =? 0) with false by (symmetry; apply Z.eqb_neq; lia).
+  (* the leading part of the request is out of range *)
+  assert (Hpre : all4 dim_in spre (ones spre) epre pre = false).
+  { rewrite S1, S2, S3 in Hout.
+    replace (ones (spre ++ sk :: zeros post)) with (ones spre ++ 1 :: ones post) in Hout
+      by (unfold ones, zeros; rewrite map_app; cbn [map]; rewrite map_map; reflexivity).
+    rewrite all4_app in Hout by (unfold ones; rewrite ?map_length; lia).
+    cbn [all4] in Hout. rewrite whole_in_range in Hout.
+    assert (Hsk : 0 <= sk).
+    { rewrite S2 in Hnn. apply Forall_app in Hnn. destruct Hnn as [_ F]. inversion F; auto. }
+    inversion Hep; subst.
+    assert (D : dim_in sk 1 ek dk = true).
+    { unfold dim_in, reach. apply andb_true_intro. split. apply Z.leb_le; auto. apply Z.ltb_lt. lia. }
+    rewrite D in Hout. simpl in Hout. rewrite andb_true_r in Hout. exact Hout. }
+  assert (Hepre : Forall (fun c => 1 <= c) epre).
+  { rewrite S3 in Hpos. apply Forall_app in Hpos. tauto. }
+  destruct (oob_bad_position spre epre pre ltac:(lia) ltac:(lia) Hepre Hpre) as [p' [Pin Pbad]].
+  match goal with |- fst (let (ok, a2) := ?L in _) = false =>
+    assert (LF : fst L = false); [| destruct L as [ok a2]; simpl in LF; subst ok; reflexivity] end.
+  apply vario_loop_false; cbn [acc_m]; auto.
+  exists (p' ++ sk :: zeros post). split.
+  - apply in_map_iff. exists p'. auto.
+  - rewrite S1. apply any2_app_l; auto. rewrite (odometer_len spre epre p') by (auto; lia). lia.
+Qed.
+
+Definition reach_in (s t c d : Z) : bool := reach s t c <? d.
+
+Lemma stride_bad_rest_spec : forall ts cs ds ss,
+  length cs = length ts -> length ds = length ts -> length ss = length ts ->
+  stride_bad_rest ts cs ds ss = negb (all4 reach_in ss ts cs ds).
+Proof.
+  induction ts; destruct cs, ds, ss; simpl; intros; try discriminate; auto.
+  rewrite stride_check_speci, IHts by lia. unfold reach_in.
+  rewrite negb_andb. f_equal. rewrite Z.leb_antisym. reflexivity.
+Qed.
+
+(** SDreaddata with a stride array on a fixed-size dataset: whenever the last index start+(count-1)*stride reaches
+    the extent in ANY dimension, the call returns FAIL before any transfer and without touching the dataset *)
+Lemma sd_read_strided_rejected : forall m start stride count,
+  is_recvar m = false -> (0 < length (m_shape m))%nat ->
+  length start = length (m_shape m) -> length stride = length (m_shape m) -> length count = length (m_shape m) ->
+  all4 reach_in start stride count (m_shape m) = false ->
+  sd_read m true start stride count = (m, MRead (-1) [] []).
+Proof.
+  intros m start stride count Hr Hn Hs Ht Hc H.
+  unfold sd_read. rewrite Hr.
+  destruct (0 <? length (m_shape m))%nat eqn:E; [| apply Nat.ltb_ge in E; lia].
+  destruct (m_shape m) as [| d ds]; [simpl in Hn; lia |].
+  destruct start as [| s ss], stride as [| t ts], count as [| c cs]; try discriminate.
+  cbn [hd tl andb]. rewrite stride_check_spec0.
+  rewrite stride_bad_rest_spec by (simpl in *; lia).
+  cbn [all4] in H. unfold reach_in at 1 in H. rewrite Z.leb_antisym.
+  destruct (reach s t c <? d); simpl in *; [rewrite H; reflexivity | reflexivity].
+Qed.
+
+(** SDreaddata / SDwritedata without strides (stride NULL, or for writes all strides 1) on a fixed-size dataset:
+    a request with positive counts reaching outside the shape in any dimension returns FAIL *)
+Lemma sd_read_unit_rejected : forall m start stride count,
+  is_recvar m = false -> (0 < length (m_shape m))%nat ->
+  length start = length (m_shape m) -> length count = length (m_shape m) ->
+  Forall (fun c => 1 <= c) count ->
+  all4 dim_in start (ones start) count (m_shape m) = false ->
+  exists m' cells tr, sd_read m false start stride count = (m', MRead (-1) cells tr).
+Proof.
+  intros. unfold sd_read. cbn [andb].
+  pose proof (vario_oob_fails false (mkAcc m [] [] []) start count H H0 H1 H2 H3 H4) as F.
+  destruct (vario false start count (mkAcc m [] [] [])) as [ok a']. simpl in F. subst ok.
+  eexists. eexists. eexists. reflexivity.
+Qed.
+
+Lemma sd_write_unit_rejected : forall m us start stride count vals,
+  is_recvar m = false -> (0 < length (m_shape m))%nat ->
+  length start = length (m_shape m) -> length count = length (m_shape m) ->
+  Forall (fun c => 1 <= c) count ->
+  us = false \/ forallb (fun t => t =? 1) stride = true ->
+  all4 dim_in start (ones start) count (m_shape m) = false ->
+  exists m' tr, sd_write m us start stride count vals = (m', MRet (-1) tr).
+Proof.
+  intros m us start stride count vals Hr Hn Hs Hc Hp Hu Hout. unfold sd_write.
+  assert (E : us && negb (forallb (fun t => t =? 1) stride) = false).
+  { destruct Hu as [-> | ->]; auto. apply andb_false_r. }
+  rewrite E.
+  pose proof (vario_oob_fails true (mkAcc m [] [] (map Val vals)) start count Hr Hn Hs Hc Hp Hout) as F.
+  destruct (vario true start count (mkAcc m [] [] (map Val vals))) as [ok a']. simpl in F. subst ok.
+  eexists. eexists. reflexivity.
+Qed.
